@@ -17,15 +17,21 @@
      - the First push-through is sound in the direction "rewritten has a value => original has the
        same value", and in the other direction when the pushed function is defined on every element
        (LINQ's Select is lazy; the list semantics of [eval] is not).
-   What is NOT proved (stated here so that it stays visible):
-       simp_preserves :
-         forall fuel c e e' c' B ops E v, wf_query e -> reserved c e ->
-           simp fuel [[]] [] c e = Ok (e', c') -> eval B ops E e = Some v -> eval B ops E e' = Some v.
-     i.e. the composition of the rules by the fuel-indexed traversal with its substitution stack.
-     That composition is covered by the model/code correspondence and the CPython oracle only. *)
+   The whole algorithm (Proofs/SimplifySound.v, by strong induction on the fuel over the traversal with
+   its substitution stack, fresh-name counter and re-visits): [simplifier_preserves_query_results]
+   below - for every fuel, counter, backend meeting [backend_ok] and admissible query, if the simplifier
+   returns a query then, on every dataset, whatever the original evaluates to the result evaluates to;
+   a lambda stays a lambda that refines the original pointwise; the result is again admissible.
+   What is NOT inside that theorem (stated here so that it stays visible): queries that mention
+   [First].  The First push-through rules rewrite First(seq).a into First(Select(seq, lambda x: x.a)),
+   which is meaning-preserving for LINQ's lazy Select but not for the eager list semantics of [eval]
+   (the selection would have to be defined on every element): [First_attr_push_back] and
+   Proofs/SimplifySem.v:Fst_Sel_total state what holds; the CPython oracle with lazy sequences in
+   harness/props/c02.py covers those queries on concrete datasets, and the correspondence ties the
+   model to the code on them. *)
 From FA.Base Require Import PyAst Value Eval Traverse Names.
 From FA.Model Require Import Simplify.
-From FA.Proofs Require Import Refine EvalAgree SimplifyFacts SimplifySem RenameSem.
+From FA.Proofs Require Import Refine EvalAgree SimplifyFacts SimplifySem RenameSem SimplifyTotal SimplifyInv SimplifySound.
 
 Section C02.
   Variable B : backend.
@@ -125,6 +131,38 @@ Section C02.
   Proof. intros. apply (rule_First_attr_back B ops). right; exact I. Qed.
 End C02.
 
+(* the whole simplifier: [simplify] is simplify_chained_calls().visit on an empty argument stack *)
+Theorem simplifier_preserves_query_results : forall B ops fuel c e e' c',
+  backend_ok B ->
+  wfq e = true -> below c e -> bok B e -> mentions "First" e = false ->
+  simplify fuel c e = Ok (e', c') ->
+  (forall E, refines (eval B ops E e) (eval B ops E e')) /\
+  (forall E, aview_refines (view B ops E e) (view B ops E e')) /\
+  wfq e' = true /\ below c' e' /\ bok B e' /\ mentions "First" e' = false /\ c <= c'.
+Proof. exact simp_preserves. Qed.
+
+(* the invariant it is proved through, for every stack the traversal can be in *)
+Theorem simplifier_step_invariant : forall B ops,
+  (forall n, nofun B (arg_name n)) ->
+  (forall ks vs m args kws, meth_sem B (VDict ks vs) m args kws = None) ->
+  (forall op ks vs rest kws, fun_sem B op (VDict ks vs :: rest) kws = None) ->
+  forall fuel st bound c e e' c',
+    simp fuel st bound c e = Ok (e', c') -> stack_ok B c st -> pre B st c e -> post B ops st c e e' c'.
+Proof. exact simp_sound. Qed.
+
+(* non-vacuity: hypotheses met by a query on which beta-reduction, Where-of-Select, Select-of-Select
+   and dictionary projection all fire; both sides evaluate to [3; 4] on ds = [1; 2; 3] *)
+Example simplifier_preserves_example :
+  backend_ok SoundExample.B0 /\ wfq SoundExample.q = true /\ below 0 SoundExample.q /\ bok SoundExample.B0 SoundExample.q /\
+  mentions "First" SoundExample.q = false /\
+  exists e' c', simplify 40 0 SoundExample.q = Ok (e', c') /\ e' <> SoundExample.q /\
+    eval SoundExample.B0 [] [("ds", VList [VInt 1; VInt 2; VInt 3])] e' = Some (VList [VInt 3; VInt 4]).
+Proof.
+  split; [exact SoundExample.B0_ok|]. split; [exact SoundExample.q_wf|]. split; [exact SoundExample.q_below|].
+  split; [exact SoundExample.q_bok|]. split; [exact SoundExample.q_nf|].
+  destruct SoundExample.q_simplifies as (e' & c' & H1 & H2 & _ & H4). eauto.
+Qed.
+
 Print Assumptions names_that_do_not_occur_do_not_matter.
 Print Assumptions value_depends_only_on_occurring_names.
 Print Assumptions renaming_preserves_meaning.
@@ -177,3 +215,5 @@ Example simp_respects_shadowing :
     /\ eval B0 [] [("ds", data)] q_capture = Some (VList [VList [VInt 3]; VList [VInt 5]; VList [VInt 4]])
     /\ eval B0 [] [("ds", data)] q' = Some (VList [VList [VInt 3]; VList [VInt 5]; VList [VInt 4]]).
 Proof. eexists; eexists; split; [vm_compute; reflexivity | split; vm_compute; reflexivity]. Qed.
+Print Assumptions simplifier_preserves_query_results.
+Print Assumptions simplifier_step_invariant.
